@@ -6,206 +6,471 @@ import (
 	"strings"
 )
 
-// C16: from chains/btc/executor/executor.go
-//   - the fee formula of `fee` with the three size/rounding constants substituted, as a Lean Nat term
-//   - the two guards of rawTx that refuse a transaction (as Lean Bools) and the condition for a change output
-//   - the loop-exit test of `inputs`
-// from chains/btc/mempool/mempool.go
-//   - the ordered list of fields the UTXO comparator looks at
+// C16: facts from chains/btc/executor/executor.go, message-handler.go and chains/btc/mempool/mempool.go, located by SHAPE
+// (names of locals, parameters, receivers and extracted helpers are derived from the statements):
+//   feeFormula   the value `fee` returns, as a function of (inputs, outputs, rate); locals inlined, constants resolved
+//   refuse       the tests of rawTx on the selected input amount that refuse a transaction, uint64 wrap-around kept
+//   changeAmount what is left for the change output, uint64 wrap-around kept
+//   changeCond   when a change output is appended
+//   feeCalls     the arguments of the estimate and of the final fee quote, over (#proposals, #selected UTXOs)
+//   stopCond     when the input selection loop stops
+//   supplyCap    the test of `outputs` that refuses amounts beyond the supply, and that it follows the addition
+//   handlerChecksUint64   the message handler returns an error before `.Uint64()` can truncate
+//   comparator   the `less` function the UTXO service's listing is sorted with, as a function of two UTXOs
 func init() {
 	extractors["C16"] = func(o *Out) {
 		f := o.ParseFile("chains/btc/executor/executor.go")
-		// constants
-		consts := map[string]string{}
-		if f != nil {
-			for _, d := range f.Decls {
-				gd, ok := d.(*ast.GenDecl)
-				if !ok || gd.Tok != token.VAR {
+		consts := cxConsts(f)
+		consts["btcutil.MaxSatoshi"] = "2100000000000000"
+
+		// ---- fee
+		feeFn := cxFindMethod(f, "Executor", "fee", "(uint64, uint64)", "(uint64, error)")
+		feeT, feeOK := "0", false
+		if feeFn != nil {
+			cx := &CX{Names: map[string]string{cxParam(feeFn, 0): "nin", cxParam(feeFn, 1): "nout"}, Consts: consts, Locals: cxLocals(feeFn.Body)}
+			// the rate: `<x>.EconomyFee` for whatever x holds the service's answer
+			Walk(feeFn.Body, func(n ast.Node) bool {
+				if s, ok := n.(*ast.SelectorExpr); ok && s.Sel.Name == "EconomyFee" {
+					cx.Names[Src(s)] = "rate"
+				}
+				return true
+			})
+			for _, st := range feeFn.Body.List {
+				if rs, ok := st.(*ast.ReturnStmt); ok && len(rs.Results) == 2 && Src(rs.Results[1]) == "nil" {
+					feeT, feeOK = cx.Nat(rs.Results[0])
+					o.Facts["fee_go"] = Src(rs.Results[0])
+				}
+			}
+		}
+		if !feeOK {
+			o.Unavailable("feeFormula", "the successful return of `fee` was not located or uses something the translator does not understand")
+		}
+		o.Lean.WriteString("/-- the value `fee` returns (constants substituted, locals inlined; uint64 reduction not applied) -/\n")
+		o.Lean.WriteString("def feeFormula : Option (Nat → Nat → Nat → Nat) := " + LeanOpt(feeOK, "fun nin nout rate => "+feeT) + "\n\n")
+
+		// ---- rawTx: names from the three calls
+		raw := cxFindMethod(f, "Executor", "rawTx", "([]*BtcTransferProposal, config.Resource)", "(*wire.MsgTx, []mempool.Utxo, error)")
+		inFn := cxFindMethod(f, "Executor", "inputs", "(*wire.MsgTx, btcutil.Address, uint64)", "(uint64, []mempool.Utxo, error)")
+		outFn := cxFindMethod(f, "Executor", "outputs", "(*wire.MsgTx, []*BtcTransferProposal)", "(uint64, error)")
+		name := func(fd *ast.FuncDecl) string {
+			if fd == nil {
+				return "\x00"
+			}
+			return fd.Name.Name
+		}
+		inAmt, utx, outAmt, feeVar, retVar := "", "", "", "", ""
+		var retExpr ast.Expr
+		feeArgs := [][]ast.Expr{}
+		propsP := cxParam(raw, 0)
+		if raw != nil {
+			for _, st := range raw.Body.List {
+				a, ok := st.(*ast.AssignStmt)
+				if !ok || len(a.Rhs) != 1 {
 					continue
 				}
-				for _, sp := range gd.Specs {
-					vs, ok := sp.(*ast.ValueSpec)
-					if !ok {
-						continue
-					}
-					for i, n := range vs.Names {
-						if i < len(vs.Values) {
-							if bl, ok := vs.Values[i].(*ast.BasicLit); ok && bl.Kind == token.INT {
-								consts[n.Name] = bl.Value
+				if c, ok := a.Rhs[0].(*ast.CallExpr); ok {
+					if s, ok := c.Fun.(*ast.SelectorExpr); ok && Src(s.X) == cxRecv(raw) {
+						switch s.Sel.Name {
+						case name(inFn):
+							if len(a.Lhs) == 3 {
+								inAmt, utx = Src(a.Lhs[0]), Src(a.Lhs[1])
+							}
+						case name(outFn):
+							if len(a.Lhs) == 2 {
+								outAmt = Src(a.Lhs[0])
+							}
+						case name(feeFn):
+							if len(a.Lhs) == 2 && len(c.Args) == 2 {
+								feeVar = Src(a.Lhs[0]) // the last one is the final quote
+								feeArgs = append(feeArgs, c.Args)
 							}
 						}
 					}
+					continue
+				}
+				// the change amount: `<r> := <expr over inAmt, feeVar, outAmt with ->`
+				if a.Tok == token.DEFINE && len(a.Lhs) == 1 && inAmt != "" && feeVar != "" && outAmt != "" &&
+					cxMentions(a.Rhs[0], inAmt) && cxMentions(a.Rhs[0], feeVar) && cxMentions(a.Rhs[0], outAmt) {
+					retVar, retExpr = Src(a.Lhs[0]), a.Rhs[0]
 				}
 			}
 		}
-		o.Facts["constants"] = consts
-		names := map[string]string{"numOfInputs": "nin", "numOfOutputs": "nout", "recommendedFee.EconomyFee": "rate"}
-		for _, c := range []string{"INPUT_SIZE", "OUTPUT_SIZE", "FEE_ROUNDING_FACTOR"} {
-			if v, ok := consts[c]; ok {
-				names[c] = v
-			}
-		}
-		fee, feeOK := "0", false
-		if fd := FindFunc(f, "Executor", "fee"); fd != nil {
-			Walk(fd.Body, func(n ast.Node) bool {
-				if rs, ok := n.(*ast.ReturnStmt); ok && len(rs.Results) == 2 && Src(rs.Results[1]) == "nil" {
-					fee, feeOK = LeanExpr(rs.Results[0], names)
-					o.Facts["fee_go"] = Src(rs.Results[0])
-				}
-				return true
-			})
-		}
-		o.Facts["fee_translated"] = feeOK
-		o.Lean.WriteString("/-- the return expression of `fee` (constants substituted; uint64 reduction not applied) -/\n")
-		o.Lean.WriteString("def feeFormula (nin nout rate : Nat) : Nat := " + fee + "\n\n")
-
-		// rawTx: every `if <cond> { return nil, nil, fmt.Errorf(...) }` over the amounts, and the change condition
+		namesOK := inAmt != "" && outAmt != "" && feeVar != ""
+		gx := &CX{Names: map[string]string{inAmt: "inAmt", outAmt: "outAmt", feeVar: "fee"}, Consts: consts, Wrap: true}
 		guards := []string{}
-		change, changeOK := "false", false
-		feeArgs := []string{}
-		gnames := map[string]string{"inputAmount": "inAmt", "outputAmount": "outAmt", "fee": "fee", "returnAmount": "ret"}
-		if fd := FindFunc(f, "Executor", "rawTx"); fd != nil {
-			for _, st := range fd.Body.List {
-				switch s := st.(type) {
-				case *ast.IfStmt:
-					src := Src(s.Cond)
-					if strings.Contains(src, "inputAmount") {
-						if t, ok := LeanExpr(s.Cond, gnames); ok {
-							guards = append(guards, t)
-						} else {
-							guards = append(guards, "false /- untranslated: "+src+" -/")
-						}
-					}
-					if strings.Contains(src, "returnAmount") {
-						change, changeOK = LeanExpr(s.Cond, gnames)
-						o.Facts["change_go"] = src
-					}
-				case *ast.AssignStmt:
-					if len(s.Rhs) == 1 {
-						if c, ok := s.Rhs[0].(*ast.CallExpr); ok && Src(c.Fun) == "e.fee" && len(c.Args) == 2 {
-							feeArgs = append(feeArgs, Src(c.Args[0])+" | "+Src(c.Args[1]))
-						}
-					}
+		refuseOK := raw != nil && namesOK
+		if refuseOK {
+			for _, st := range raw.Body.List {
+				is, ok := st.(*ast.IfStmt)
+				if !ok || is.Else != nil || !cxReturnsError(is.Body) || !cxMentions(is.Cond, inAmt) {
+					continue
 				}
+				t, ok := gx.Bool(is.Cond)
+				if !ok {
+					refuseOK = false
+				}
+				guards = append(guards, t)
 			}
+		}
+		if !refuseOK {
+			o.Unavailable("refuse", "rawTx's calls of inputs/outputs/fee or its error returns on the input amount were not located in a shape the translator understands")
 		}
 		o.Facts["guards"] = guards
-		o.Facts["fee_calls"] = feeArgs
-		o.Facts["change_translated"] = changeOK
-		o.Lean.WriteString("/-- the tests of `rawTx` on the selected input amount that refuse to build a transaction, in source order -/\n")
-		o.Lean.WriteString("def refuse (inAmt outAmt fee : Nat) : List Bool := [" + strings.Join(guards, ", ") + "]\n\n")
-		o.Lean.WriteString("/-- the condition under which a change output is appended -/\n")
-		o.Lean.WriteString("def changeCond (ret : Nat) : Bool := " + change + "\n\n")
-		o.Lean.WriteString("/-- arguments of the two `e.fee(…)` calls of rawTx (inputs | outputs) -/\n")
-		o.Lean.WriteString("def feeCalls : List String := " + LeanStrList(feeArgs) + "\n\n")
+		o.Lean.WriteString("/-- does rawTx refuse (uint64 arithmetic; arguments < 2^64): the disjunction of its error returns on the input amount -/\n")
+		o.Lean.WriteString("def refuse : Option (Nat → Nat → Nat → Bool) := " + LeanOpt(refuseOK, "fun inAmt outAmt fee => "+strings.Join(append(guards, "false"), " || ")) + "\n\n")
 
-		// inputs: the break condition
+		retT, retOK := "0", false
+		if retExpr != nil {
+			retT, retOK = gx.Nat(retExpr)
+		}
+		if !retOK {
+			o.Unavailable("changeAmount", "the assignment computing what is left after outputs and fee was not located")
+		}
+		o.Lean.WriteString("/-- what is left for the change output (uint64 arithmetic; arguments < 2^64) -/\n")
+		o.Lean.WriteString("def changeAmount : Option (Nat → Nat → Nat → Nat) := " + LeanOpt(retOK, "fun inAmt outAmt fee => "+retT) + "\n\n")
+
+		// change output: `if C(r) { … uses r / AddTxOut … }`  or  `if C(r) { return tx, … nil }` followed by the unconditional append
+		chT, chOK := "false", false
+		if raw != nil && retVar != "" {
+			cx := &CX{Names: map[string]string{retVar: "ret"}, Consts: consts}
+			for i, st := range raw.Body.List {
+				is, ok := st.(*ast.IfStmt)
+				if !ok || is.Else != nil || !cxMentions(is.Cond, retVar) {
+					continue
+				}
+				t, ok := cx.Bool(is.Cond)
+				if !ok {
+					continue
+				}
+				appends := func(n ast.Node) bool {
+					s := Src(n)
+					return strings.Contains(s, "AddTxOut") || cxMentions(n, retVar)
+				}
+				last := is.Body.List[len(is.Body.List)-1]
+				if rs, ok := last.(*ast.ReturnStmt); ok && len(is.Body.List) == 1 && len(rs.Results) == 3 && Src(rs.Results[2]) == "nil" {
+					// early success return: the rest of the function appends
+					rest := &ast.BlockStmt{List: raw.Body.List[i+1:]}
+					if appends(rest) {
+						chT, chOK = "(!"+t+")", true
+					}
+				} else if appends(is.Body) {
+					chT, chOK = t, true
+				}
+			}
+		}
+		if !chOK {
+			o.Unavailable("changeCond", "the test deciding whether a change output is appended was not located")
+		}
+		o.Lean.WriteString("/-- a change output is appended when … -/\n")
+		o.Lean.WriteString("def changeCond : Option (Nat → Bool) := " + LeanOpt(chOK, "fun ret => "+chT) + "\n\n")
+
+		// the two fee calls
+		fcOK := len(feeArgs) == 2 && propsP != "" && utx != ""
+		fcT := ""
+		if fcOK {
+			cx := &CX{Names: map[string]string{"len(" + propsP + ")": "np", "len(" + utx + ")": "nu"}, Consts: consts}
+			ts := []string{}
+			for _, args := range feeArgs {
+				for _, a := range args {
+					t, ok := cx.Nat(a)
+					fcOK = fcOK && ok
+					ts = append(ts, t)
+				}
+			}
+			fcT = "(" + ts[0] + ", " + ts[1] + ", " + ts[2] + ", " + ts[3] + ")"
+		}
+		if !fcOK {
+			o.Unavailable("feeCalls", "rawTx does not call fee exactly twice with arguments over len(proposals) / len(selected utxos)")
+		}
+		o.Lean.WriteString("/-- (estimate inputs, estimate outputs, final inputs, final outputs) over np = #proposals, nu = #selected UTXOs -/\n")
+		o.Lean.WriteString("def feeCalls : Option (Nat → Nat → Nat × Nat × Nat × Nat) := " + LeanOpt(fcOK, "fun np nu => "+fcT) + "\n\n")
+
+		// ---- inputs: the loop's exit test
 		brk, brkOK := "false", false
-		if fd := FindFunc(f, "Executor", "inputs"); fd != nil {
-			Walk(fd.Body, func(n ast.Node) bool {
-				if is, ok := n.(*ast.IfStmt); ok && len(is.Body.List) == 1 {
-					if b, ok := is.Body.List[0].(*ast.BranchStmt); ok && b.Tok == token.BREAK {
-						brk, brkOK = LeanExpr(is.Cond, map[string]string{"inputAmount": "acc", "outputAmount": "target"})
-						o.Facts["break_go"] = Src(is.Cond)
+		if inFn != nil {
+			target := cxParam(inFn, 2)
+			cxLoops(inFn.Body, func(body *ast.BlockStmt, _ ast.Stmt) {
+				acc := ""
+				for _, st := range body.List {
+					if x, y, ok := cxAddTo(st); ok && strings.Contains(Src(y), ".Value") {
+						acc = x
 					}
 				}
-				return true
+				if acc == "" {
+					return
+				}
+				cx := &CX{Names: map[string]string{acc: "acc", target: "target"}, Consts: consts}
+				for _, st := range body.List {
+					if is, ok := st.(*ast.IfStmt); ok && is.Else == nil && len(is.Body.List) == 1 {
+						if b, ok := is.Body.List[0].(*ast.BranchStmt); ok && b.Tok == token.BREAK {
+							brk, brkOK = cx.Bool(is.Cond)
+						}
+					}
+				}
 			})
 		}
-		o.Facts["break_translated"] = brkOK
+		if !brkOK {
+			o.Unavailable("stopCond", "the `if … { break }` of the input selection loop was not located")
+		}
 		o.Lean.WriteString("/-- the loop-exit test of `inputs` (acc = running total after adding the UTXO) -/\n")
-		o.Lean.WriteString("def stopCond (acc target : Nat) : Bool := " + brk + "\n\n")
+		o.Lean.WriteString("def stopCond : Option (Nat → Nat → Bool) := " + LeanOpt(brkOK, "fun acc target => "+brk) + "\n\n")
 
-		// outputs: the supply cap on a proposal amount / the running total, and that it is tested after the addition
-		capc, capOK, capAfter := "false", false, false
-		if fd := FindFunc(f, "Executor", "outputs"); fd != nil {
-			Walk(fd.Body, func(n ast.Node) bool {
-				rs, ok := n.(*ast.RangeStmt)
-				if !ok {
-					return true
+		// ---- outputs: the supply cap, after the addition
+		capT, capOK, capAfter := "false", false, false
+		if outFn != nil {
+			cxLoops(outFn.Body, func(body *ast.BlockStmt, loop ast.Stmt) {
+				total, amt := "", ""
+				for _, st := range body.List {
+					if x, y, ok := cxAddTo(st); ok && strings.HasSuffix(Src(y), ".Data.Amount") {
+						total, amt = x, Src(y)
+					}
 				}
+				if total == "" {
+					return
+				}
+				cx := &CX{Names: map[string]string{total: "total", amt: "amt", "btcutil.MaxSatoshi": "2100000000000000"}, Consts: consts}
 				added := false
-				for _, st := range rs.Body.List {
-					if as, ok := st.(*ast.AssignStmt); ok && as.Tok == token.ADD_ASSIGN && Src(as.Lhs[0]) == "outputAmount" {
+				for _, st := range body.List {
+					if _, _, ok := cxAddTo(st); ok {
 						added = true
 					}
-					if is, ok := st.(*ast.IfStmt); ok && strings.Contains(Src(is.Cond), "MaxSatoshi") {
-						capc, capOK = LeanExpr(is.Cond, map[string]string{"prop.Data.Amount": "amt", "outputAmount": "total", "btcutil.MaxSatoshi": "2100000000000000"})
-						capAfter = added
-						o.Facts["cap_go"] = Src(is.Cond)
+					if is, ok := st.(*ast.IfStmt); ok && is.Else == nil && cxReturnsError(is.Body) && (cxMentions(is.Cond, total) || strings.Contains(Src(is.Cond), amt)) {
+						if t, ok := cx.Bool(is.Cond); ok {
+							capT, capOK, capAfter = t, true, added
+						}
 					}
 				}
-				return false
 			})
 		}
-		o.Facts["cap_translated"] = capOK
-		o.Lean.WriteString("/-- the test of `outputs` that refuses amounts beyond the supply (amt = this proposal's amount, total = running total) -/\n")
-		o.Lean.WriteString("def supplyCap (amt total : Nat) : Bool := " + capc + "\n")
-		if capAfter {
-			o.Lean.WriteString("def supplyCapAfterAddition : Bool := true\n\n")
-		} else {
-			o.Lean.WriteString("def supplyCapAfterAddition : Bool := false\n\n")
+		if !capOK {
+			o.Unavailable("supplyCap", "the test of `outputs` on the proposal amount / running total was not located")
 		}
-		// message handler: the amount is tested to fit 64 bits before .Uint64()
+		after := "false"
+		if capAfter {
+			after = "true"
+		}
+		o.Lean.WriteString("/-- (refuses when …, tested after the amount was added to the total) -/\n")
+		o.Lean.WriteString("def supplyCap : Option ((Nat → Nat → Bool) × Bool) := " + LeanOpt(capOK, "fun amt total => "+capT+", "+after) + "\n\n")
+
+		// ---- message handler: `if !X.IsUint64() { return nil, <error> }`
 		mh := o.ParseFile("chains/btc/executor/message-handler.go")
-		fits := false
+		fits, located := false, false
 		if fd := FindFunc(mh, "", "ERC20MessageHandler"); fd != nil {
 			Walk(fd.Body, func(n ast.Node) bool {
-				if is, ok := n.(*ast.IfStmt); ok && Src(is.Cond) == "!bigAmount.IsUint64()" && len(is.Body.List) == 1 {
-					if _, ok := is.Body.List[0].(*ast.ReturnStmt); ok {
+				if c, ok := n.(*ast.CallExpr); ok {
+					if s, ok := c.Fun.(*ast.SelectorExpr); ok && s.Sel.Name == "Uint64" {
+						located = true
+					}
+				}
+				if is, ok := n.(*ast.IfStmt); ok && cxReturnsError(is.Body) {
+					if u, ok := is.Cond.(*ast.UnaryExpr); ok && u.Op == token.NOT && strings.HasSuffix(Src(u.X), ".IsUint64()") {
 						fits = true
 					}
 				}
 				return true
 			})
 		}
-		o.Facts["handler_checks_uint64"] = fits
-		if fits {
-			o.Lean.WriteString("def handlerChecksUint64 : Bool := true\n\n")
-		} else {
-			o.Lean.WriteString("def handlerChecksUint64 : Bool := false\n\n")
+		if !located {
+			o.Unavailable("handlerChecksUint64", "ERC20MessageHandler's conversion to uint64 was not located")
 		}
+		fitsT := "false"
+		if fits {
+			fitsT = "true"
+		}
+		o.Lean.WriteString("/-- the handler returns an error when the amount is no uint64, before converting it -/\n")
+		o.Lean.WriteString("def handlerChecksUint64 : Option Bool := " + LeanOpt(located, fitsT) + "\n\n")
 
-		// mempool comparator: fields of utxos[i] mentioned inside the sort.Slice closure, in order of first appearance
+		// ---- the comparator of the UTXO listing: the one sort.Slice of mempool.go, reached from Utxos directly or through
+		//      one same-file helper
 		m := o.ParseFile("chains/btc/mempool/mempool.go")
-		keys := []string{}
-		retKeys := []string{}
-		if fd := FindFunc(m, "MempoolAPI", "Utxos"); fd != nil {
-			Walk(fd.Body, func(n ast.Node) bool {
-				c, ok := n.(*ast.CallExpr)
-				if !ok || Src(c.Fun) != "sort.Slice" || len(c.Args) != 2 {
-					return true
+		var sortCall *ast.CallExpr
+		var sortIn *ast.FuncDecl
+		nSort := 0
+		if m != nil {
+			for _, d := range m.Decls {
+				fd, ok := d.(*ast.FuncDecl)
+				if !ok || fd.Body == nil {
+					continue
 				}
-				Walk(c.Args[1], func(k ast.Node) bool {
-					if se, ok := k.(*ast.SelectorExpr); ok {
-						s := Src(se)
-						if strings.HasPrefix(s, "utxos[i].") {
-							fld := strings.TrimPrefix(s, "utxos[i].")
-							if fld != "Status" {
-								seen := false
-								for _, x := range keys {
-									seen = seen || x == fld
-								}
-								if !seen {
-									keys = append(keys, fld)
-								}
-							}
-							return false
-						}
-					}
-					if rs, ok := k.(*ast.ReturnStmt); ok && len(rs.Results) == 1 {
-						retKeys = append(retKeys, Src(rs.Results[0]))
+				Walk(fd.Body, func(n ast.Node) bool {
+					if c, ok := n.(*ast.CallExpr); ok && (Src(c.Fun) == "sort.Slice" || Src(c.Fun) == "sort.SliceStable") && len(c.Args) == 2 {
+						sortCall, sortIn = c, fd
+						nSort++
 					}
 					return true
 				})
-				return false
-			})
+			}
 		}
-		o.Facts["comparator_keys"] = keys
-		o.Facts["comparator_returns"] = retKeys
-		o.Lean.WriteString("/-- fields of a UTXO the service-side comparator consults, in order of first use -/\n")
-		o.Lean.WriteString("def comparatorKeys : List String := " + LeanStrList(keys) + "\n\n")
-		o.Lean.WriteString("/-- the `return` expressions of the comparator, in source order -/\n")
-		o.Lean.WriteString("def comparatorReturns : List String := " + LeanStrList(retKeys) + "\n")
+		utxosFn := FindFunc(m, "MempoolAPI", "Utxos")
+		reached := false
+		if nSort == 1 && utxosFn != nil {
+			reached = sortIn == utxosFn
+			if !reached && sortIn.Recv == nil {
+				Walk(utxosFn.Body, func(n ast.Node) bool {
+					if c, ok := n.(*ast.CallExpr); ok && Src(c.Fun) == sortIn.Name.Name {
+						reached = true
+					}
+					return true
+				})
+			}
+		}
+		cmpT, cmpOK := "false", false
+		if reached {
+			if fl, ok := sortCall.Args[1].(*ast.FuncLit); ok && fl.Type.Params != nil {
+				ps := []string{}
+				for _, p := range fl.Type.Params.List {
+					for _, n := range p.Names {
+						ps = append(ps, n.Name)
+					}
+				}
+				if len(ps) == 2 {
+					cmpT, cmpOK = c16Less(fl.Body.List, Src(sortCall.Args[0]), ps[0], ps[1])
+				}
+			}
+		}
+		if !cmpOK {
+			o.Unavailable("comparator", "the sort of the UTXO listing (one sort.Slice reached from Utxos) or its less function was not located in a shape the translator understands")
+		}
+		o.Lean.WriteString("/-- the `less` function of the listing's sort, over the fields of two UTXOs (lt = Go's `<` on strings) -/\n")
+		o.Lean.WriteString("def comparator : Option ((List Nat → List Nat → Bool) → Nat → List Nat → Nat → Bool → Nat → List Nat → Nat → Bool → Bool) := " +
+			LeanOpt(cmpOK, "fun lt abt atx av ac bbt btx bv bc => "+cmpT) + "\n")
 	}
+}
+
+// c16Less translates the body of a `func(i, j int) bool` over slice S into a Lean Bool term over the fields of the two
+// elements: nested if / else / return.
+func c16Less(stmts []ast.Stmt, S, i, j string) (string, bool) {
+	// optional leading `x, y := S[i], S[j]` (aliases of the two elements)
+	alias := map[string]string{}
+	if len(stmts) > 0 {
+		if a, ok := stmts[0].(*ast.AssignStmt); ok && a.Tok == token.DEFINE && len(a.Lhs) == len(a.Rhs) {
+			all := true
+			for k := range a.Lhs {
+				r := Src(a.Rhs[k])
+				if r == S+"["+i+"]" || r == S+"["+j+"]" {
+					alias[Src(a.Lhs[k])] = r
+				} else {
+					all = false
+				}
+			}
+			if all {
+				stmts = stmts[1:]
+			} else {
+				alias = map[string]string{}
+			}
+		}
+	}
+	field := func(e ast.Expr) (string, string, bool) { // (a|b, field)
+		s := Src(e)
+		for al, full := range alias {
+			if strings.HasPrefix(s, al+".") {
+				s = full + strings.TrimPrefix(s, al)
+			}
+		}
+		for _, side := range [][2]string{{i, "a"}, {j, "b"}} {
+			p := S + "[" + side[0] + "]."
+			if strings.HasPrefix(s, p) {
+				switch strings.TrimPrefix(s, p) {
+				case "Status.BlockTime":
+					return side[1], "bt", true
+				case "TxID":
+					return side[1], "tx", true
+				case "Vout":
+					return side[1], "v", true
+				case "Status.Confirmed":
+					return side[1], "c", true
+				}
+			}
+		}
+		return "", "", false
+	}
+	var expr func(e ast.Expr) (string, bool)
+	expr = func(e ast.Expr) (string, bool) {
+		switch x := e.(type) {
+		case *ast.ParenExpr:
+			return expr(x.X)
+		case *ast.Ident:
+			if x.Name == "true" || x.Name == "false" {
+				return x.Name, true
+			}
+		case *ast.UnaryExpr:
+			if x.Op == token.NOT {
+				t, ok := expr(x.X)
+				return "(!" + t + ")", ok
+			}
+		case *ast.SelectorExpr:
+			if s, fl, ok := field(x); ok && fl == "c" {
+				return s + "c", true
+			}
+		case *ast.BinaryExpr:
+			if x.Op == token.LAND || x.Op == token.LOR {
+				l, ok1 := expr(x.X)
+				r, ok2 := expr(x.Y)
+				op := "&&"
+				if x.Op == token.LOR {
+					op = "||"
+				}
+				return "(" + l + " " + op + " " + r + ")", ok1 && ok2
+			}
+			ls, lf, ok1 := field(x.X)
+			rs, rf, ok2 := field(x.Y)
+			if !ok1 || !ok2 || lf != rf || lf == "c" {
+				return "false", false
+			}
+			l, r := ls+lf, rs+rf
+			if lf == "tx" {
+				switch x.Op {
+				case token.LSS:
+					return "lt " + l + " " + r, true
+				case token.GTR:
+					return "lt " + r + " " + l, true
+				case token.EQL:
+					return "(" + l + " == " + r + ")", true
+				case token.NEQ:
+					return "(!(" + l + " == " + r + "))", true
+				case token.LEQ:
+					return "(!(lt " + r + " " + l + "))", true
+				case token.GEQ:
+					return "(!(lt " + l + " " + r + "))", true
+				}
+				return "false", false
+			}
+			cmp := map[token.Token]string{token.LSS: "<", token.LEQ: "≤", token.GTR: ">", token.GEQ: "≥", token.EQL: "=", token.NEQ: "≠"}[x.Op]
+			if cmp != "" {
+				return "decide (" + l + " " + cmp + " " + r + ")", true
+			}
+		}
+		return "false", false
+	}
+	var block func(sts []ast.Stmt) (string, bool)
+	block = func(sts []ast.Stmt) (string, bool) {
+		if len(sts) == 0 {
+			return "false", false
+		}
+		switch s := sts[0].(type) {
+		case *ast.ReturnStmt:
+			if len(s.Results) == 1 {
+				return expr(s.Results[0])
+			}
+		case *ast.IfStmt:
+			if s.Init != nil {
+				return "false", false
+			}
+			c, ok1 := expr(s.Cond)
+			t, ok2 := block(s.Body.List)
+			var e string
+			var ok3 bool
+			switch el := s.Else.(type) {
+			case nil:
+				e, ok3 = block(sts[1:])
+			case *ast.BlockStmt:
+				e, ok3 = block(el.List)
+			case *ast.IfStmt:
+				e, ok3 = block([]ast.Stmt{el})
+			}
+			return "(if " + c + " then " + t + " else " + e + ")", ok1 && ok2 && ok3
+		}
+		return "false", false
+	}
+	return block(stmts)
 }
